@@ -505,7 +505,7 @@ impl ChainSim {
     pub fn poll_task(&self, t: TaskId) -> PollOut {
         self.hist.0.cur_task.set(Some(t));
         self.hist.0.poll_seq.set(self.hist.0.poll_seq.get() + 1);
-        self.hist.push(Ev::PollStart { task: t });
+        self.hist.push(Ev::PollStart { task: t, coop: false });
         let out = self.exec.poll(t);
         self.hist.0.cur_task.set(None);
         let o = match &out {
